@@ -302,9 +302,12 @@ def explore_with_crosscheck(st, harness, bound, on_exec, case, line_bound=1):
         return stats, seen
     stats, coarse = labelled(bound=bound)
     root = os.path.dirname(os.path.abspath(canopen.__file__))
+    nviol = len(st.violations)
     fine_stats, fine = labelled(bound=line_bound, line_root=root)
     st.count("line_level_schedules", fine_stats["executions"])
-    if fine - coarse:
+    if fine - coarse and len(st.violations) == nviol:
+        # (when the line-level pass itself found violations they are reported as such; an unseen but *accepted*
+        # outcome means the attribute-level instrumentation misses shared state)
         st.count("HARNESS:line-level exploration reached outcomes unseen at attribute level: %r (case %r)" %
                  (sorted(fine - coarse)[:3], case))
     return stats
